@@ -55,11 +55,32 @@ Definition run_LC (c : case_LC) : otree :=
   T [L 0; o_deliveries o; T (map o_row t');
      T [L 0; T (map (fun x => L (l_id x)) (listing (map snd t')))]].
 
-Definition agree_LC (c : case_LC) (obs : otree) : bool :=
-  let '(o, t) := detect2 c in
-  let t' := sort_by_id t in
-  match obs with
-  | T [L 0; od; ot; ol] =>
-      otree_eqb od (o_deliveries o) && otree_eqb ot (T (map o_row t')) && agree_listing t' ol
-  | _ => false
+(* per-property projections of the observation, so that a change that only affects what one property talks about
+   does not break the correspondence of the others *)
+Definition proj_delivery (keep_pub : bool) (o : otree) : otree :=
+  match o with
+  | T [i; l; p] => if keep_pub then o else T [i; l]
+  | _ => o
   end.
+Definition proj_row (mode : N) (o : otree) : otree :=
+  match o with
+  | T [i; e; n; s; en; r; og] =>
+      match mode with
+      | 5 | 6 => T [i; e]                      (* C05/C06: which lifecycles exist, of which ECU *)
+      | 8 => T [i; e; s; en]                   (* C08: plus start and end *)
+      | _ => o                                 (* C07: everything *)
+      end
+  | _ => o
+  end.
+Definition proj_obs (mode : N) (o : otree) : otree :=
+  match o with
+  | T [st; T dl; T tb; ls] =>
+      T [st; T (map (proj_delivery (N.eqb mode 6)) dl); T (map (proj_row mode) tb);
+         if N.eqb mode 7 then ls else T []]
+  | _ => o
+  end.
+
+Definition agree_LC_mode (mode : N) (c : case_LC) (obs : otree) : bool :=
+  otree_eqb (proj_obs mode obs) (proj_obs mode (run_LC c)).
+
+Definition agree_LC (c : case_LC) (obs : otree) : bool := otree_eqb obs (run_LC c).
